@@ -105,10 +105,21 @@ def run(replay=None):
         if n % 9973 == 0:
             chk.sample({'case': [kind] + list(args), 'spec': spec.get(id_), 'generated_kernel': model.get(id_),
                         'impl': {c: impl[c].get(id_) for c in impl}})
+        # the property's own oracle, computed independently of the Coq development
+        if kind == 'rp2':
+            s_py = str(1 if args[1] <= 1 else 1 << (args[1] - 1).bit_length())
+        else:
+            s_py = str(pow(args[1], args[2], 1 << args[0]))
         s = spec.get(id_)
         m = model.get(id_)
+        if s is not None and s != s_py:
+            chk.obligation_broken(f'spec function vs independent oracle on {kind}{tuple(args)}', f'Coq spec {s}, python {s_py}')
+        s = s_py
         for cfg in impl:
             a = impl[cfg].get(id_)
+            if a == 'SKIPPED':
+                chk.cov['skipped_after_crashes'] = chk.cov.get('skipped_after_crashes', 0) + 1
+                continue
             if s is not None and a != s:
                 chk.violation(f'{kind}<uint{args[0]}_t> wrong value', f'{kind}{tuple(args[1:])} at {args[0]} bits returned {a} in build {cfg}, closed form is {s}',
                               {'cases': [[kind, list(args)]], 'impl': a, 'spec': s, 'build': cfg})
